@@ -288,6 +288,9 @@ type Typedef struct {
 	// resolving is set while the typedef is being resolved, to detect
 	// circular definitions.
 	resolving bool
+	// resolveRun is the Process call (see typeDictionary.run) during which
+	// YangType was resolved.
+	resolveRun int
 }
 
 func (Typedef) Kind() string             { return "typedef" }
